@@ -110,6 +110,15 @@ pub struct Outcome {
     pub infos: Vec<InfoRec>,
     pub polls: u64,
     pub control: Control,
+    /// the position (FEN) at which the search observed its stop or expired limit, if it did (hook H3)
+    pub stopped_at: Option<String>,
+}
+
+fn stopped_at() -> Option<String> {
+    #[cfg(hook_stopped_at)]
+    return verif_hooks::stopped_at();
+    #[cfg(not(hook_stopped_at))]
+    None
 }
 
 fn time_control(limit: &Limit) -> (TimeControl, Option<u8>) {
@@ -142,8 +151,9 @@ pub fn run_search(game: &Game, state: &mut PersistentState, limit: &Limit, stop_
     verif_hooks::arm(stop_at_poll);
     let r = catch(|| search::search(game, state, &mut ts, &restrictions, &options, &mut reporter));
     let polls = verif_hooks::polls();
+    let stopped_at = stopped_at();
     verif_hooks::arm(0);
-    r.map(|best| Outcome { best, infos: reporter.infos, polls, control })
+    r.map(|best| Outcome { best, infos: reporter.infos, polls, control, stopped_at })
 }
 
 /// Like `run_search`, but another thread calls the real `Control::stop()` after `delay_us` microseconds.
@@ -163,7 +173,8 @@ pub fn run_search_with_stopper(game: &Game, state: &mut PersistentState, limit: 
         catch(|| search::search(game, state, &mut ts, &restrictions, &options, &mut reporter))
     });
     let polls = verif_hooks::polls();
-    r.map(|best| Outcome { best, infos: reporter.infos, polls, control })
+    let stopped_at = stopped_at();
+    r.map(|best| Outcome { best, infos: reporter.infos, polls, control, stopped_at })
 }
 
 /// One reported line in a form that both the in-process reporter and the binary's text give.
